@@ -18,6 +18,10 @@ class Contraction:
         The names of the contracted tensors
     term_target_indices: tuple[Index]
         The target indices of the term the contraction belongs to
+    external_indices: tuple[Index], optional
+        Indices that additionally occur on objects of the term that are not
+        part of the contraction. They can not be contracted and are kept as
+        target indices of the contraction.
     """
     # use counter that essentially counts how many class instances have
     # been created
@@ -28,7 +32,8 @@ class Contraction:
 
     def __init__(self, indices: tuple[tuple[Index]],
                  names: tuple[str],
-                 term_target_indices: tuple[Index]) -> None:
+                 term_target_indices: tuple[Index],
+                 external_indices: tuple[Index] = tuple()) -> None:
         self.indices: tuple[tuple[Index]] = indices
         self.names: tuple[str] = names
         self.contracted: tuple[Index] = None
@@ -36,7 +41,8 @@ class Contraction:
         self.scaling: Scaling = None
         self.id: int = next(self._instance_counter)
         self.contraction_name = f"{self._base_name}_{self.id}"
-        self._determine_contracted_and_target(term_target_indices)
+        self._determine_contracted_and_target(term_target_indices,
+                                              external_indices)
         self._determine_scaling()
 
     def __str__(self):
@@ -49,8 +55,9 @@ class Contraction:
         return self.__str__()
 
     def _determine_contracted_and_target(self,
-                                         term_target_indices: tuple[Index]
-                                         ) -> None:
+                                         term_target_indices: tuple[Index],
+                                         external_indices: tuple[Index]
+                                         = tuple()) -> None:
         """
         Determines and sets the contracted and target indices on the
         contraction using the provided target indices of the term
@@ -59,7 +66,7 @@ class Contraction:
         term, the target indices of the term will be used instead.
         """
         contracted, target = self._split_contracted_and_target(
-            self.indices, term_target_indices
+            self.indices, (*term_target_indices, *external_indices)
         )
         # sort the indices canonical
         contracted = sorted(contracted, key=sort_idx_canonical)
